@@ -29,6 +29,13 @@ func (c *DynamicCache[T]) CheckAndSet(key T) bool {
 	return false
 }
 
+// Unset forgets a key, so that the next CheckAndSet of it reports it as new again.
+func (c *DynamicCache[T]) Unset(key T) {
+	c.mtx.Lock()
+	defer c.mtx.Unlock()
+	c.sets.Del(append(c.db, c.serializer(key)...))
+}
+
 func (c *DynamicCache[T]) Stop() {
 	c.cleanup.Stop()
 }
